@@ -16,6 +16,11 @@ holding that lock, which is all the theorems use.  The translator FAILS CLOSED: 
 through a construct it does not know (aliasing into a local, passing the container to a call, returning it,
 comprehension targets, `global`, `nonlocal`, lambdas or nested defs touching it) is an error.
 Files under Gen/ are rewritten only when their content changes.
+
+The IF.LDM.3 / IF.LDM.4 interface classes (if_ldm_3.py, if_ldm_4.py) are summarised as well, once per configuration the
+factory builds (Thread service over Thread maintenance, Reactive service over Reactive maintenance), into a list of their
+own, `ldm_if_summary`: an interface call composes critical sections of the classes behind it and may hold the state lock
+of the service (`with self.ldm_service.state_lock:`, the property is checked to return LDMService._lock) around them.
 """
 import ast
 import os
@@ -25,10 +30,18 @@ VERIF = os.path.dirname(os.path.dirname(os.path.abspath(__file__)))
 REPO = os.environ.get("FLEXVERIF_REPO", "/repo")
 
 FILES = ["dictionary_database.py", "ldm_maintenance.py", "ldm_maintenance_thread.py", "ldm_maintenance_reactive.py",
-         "ldm_service.py", "ldm_service_threads.py", "ldm_service_reactive.py"]
+         "ldm_service.py", "ldm_service_threads.py", "ldm_service_reactive.py", "if_ldm_3.py", "if_ldm_4.py"]
 PARENT = {"LDMMaintenanceThread": "LDMMaintenance", "LDMMaintenanceReactive": "LDMMaintenance",
           "LDMServiceThreads": "LDMService", "LDMServiceReactive": "LDMService",
-          "DictionaryDataBase": None, "LDMMaintenance": None, "LDMService": None}
+          "DictionaryDataBase": None, "LDMMaintenance": None, "LDMService": None,
+          "InterfaceLDM3": None, "InterfaceLDM4": None,
+          # CONFIGURATIONS (no class of the source): the interfaces in front of the two LDMs the factory builds and the
+          # run-time part drives - Thread service over Thread maintenance, Reactive service over Reactive maintenance
+          "LDMServiceReactive_RM": "LDMServiceReactive",
+          "InterfaceLDM3_Thread": "InterfaceLDM3", "InterfaceLDM3_Reactive": "InterfaceLDM3",
+          "InterfaceLDM4_Thread": "InterfaceLDM4", "InterfaceLDM4_Reactive": "InterfaceLDM4"}
+CONFIGURATIONS = ["LDMServiceReactive_RM", "InterfaceLDM3_Thread", "InterfaceLDM3_Reactive", "InterfaceLDM4_Thread",
+                  "InterfaceLDM4_Reactive"]
 # class -> lock attributes, tracked attributes (inherited along PARENT)
 LOCKS = {
     "DictionaryDataBase": ["_lock"],
@@ -38,6 +51,15 @@ LOCKS = {
     "LDMService": ["_lock"],
     "LDMServiceThreads": ["data_containers_lock"],
     "LDMServiceReactive": ["lock"],
+    "InterfaceLDM3": [], "InterfaceLDM4": [],
+    "LDMServiceReactive_RM": [], "InterfaceLDM3_Thread": [], "InterfaceLDM3_Reactive": [], "InterfaceLDM4_Thread": [],
+    "InterfaceLDM4_Reactive": [],
+}
+# locks of another analysed object that a class takes through an attribute chain from self: class -> chain -> lock.
+# LDMService.state_lock is a property; main() checks that it returns self._lock and nothing else
+LOCK_CHAINS = {
+    "InterfaceLDM3": {("ldm_service", "state_lock"): "LDMService._lock"},
+    "InterfaceLDM4": {("ldm_service", "state_lock"): "LDMService._lock"},
 }
 TRACKED = {
     "DictionaryDataBase": ["database", "_next_id"],
@@ -47,6 +69,9 @@ TRACKED = {
     "LDMService": ["data_provider_its_aid", "data_consumer_its_aid", "subscriptions", "last_checked_subscriptions_time"],
     "LDMServiceThreads": [],
     "LDMServiceReactive": ["last_subscription_time"],
+    "InterfaceLDM3": [], "InterfaceLDM4": [],
+    "LDMServiceReactive_RM": [], "InterfaceLDM3_Thread": [], "InterfaceLDM3_Reactive": [], "InterfaceLDM4_Thread": [],
+    "InterfaceLDM4_Reactive": [],
 }
 SCALARS = {"_next_id", "new_data_recieved_flag", "last_trash_collection_time", "last_subscription_time"}
 MUTATORS = {"pop", "append", "setdefault", "add", "discard", "clear", "popleft", "update", "remove", "extend",
@@ -68,11 +93,31 @@ METHODS = {
                            "store_new_subscription_petition", "add_data_consumer_its_aid", "get_data_consumer_its_aid",
                            "del_data_consumer_its_aid", "delete_subscription", "query", "search_data"],
 }
+# the Reactive service in front of the Reactive maintenance (the service classes above are summarised over the Thread one)
+METHODS["LDMServiceReactive_RM"] = METHODS["LDMServiceReactive"]
+# the IF.LDM.3 / IF.LDM.4 calls, summarised per configuration into ldm_if_summary (a list of its own: an interface call is
+# a COMPOSITION of critical sections of the classes above, possibly inside a section of the service's state lock)
+IF_METHODS = {
+    "InterfaceLDM3": ["register_data_provider", "deregister_data_provider", "add_provider_data", "update_provider_data",
+                      "delete_provider_data"],
+    "InterfaceLDM4": ["register_data_consumer", "deregister_data_consumer", "request_data_objects",
+                      "subscribe_data_consumer", "unsubscribe_data_consumer"],
+}
+IF_CONFIGS = {"InterfaceLDM3_Thread": "InterfaceLDM3", "InterfaceLDM3_Reactive": "InterfaceLDM3",
+              "InterfaceLDM4_Thread": "InterfaceLDM4", "InterfaceLDM4_Reactive": "InterfaceLDM4"}
 # attribute chains (from self) that denote another analysed object: chain -> dynamic class used for the summary
 OBJECTS = {
     "LDMMaintenance": {("data_containers",): "DictionaryDataBase"},
     "LDMService": {("ldm_maintenance",): "LDMMaintenanceThread", ("ldm_maintenance", "data_containers"): "DictionaryDataBase"},
+    "LDMServiceReactive_RM": {("ldm_maintenance",): "LDMMaintenanceReactive",
+                              ("ldm_maintenance", "data_containers"): "DictionaryDataBase"},
 }
+for _c, _svc, _mnt in (("InterfaceLDM3_Thread", "LDMServiceThreads", "LDMMaintenanceThread"),
+                       ("InterfaceLDM4_Thread", "LDMServiceThreads", "LDMMaintenanceThread"),
+                       ("InterfaceLDM3_Reactive", "LDMServiceReactive_RM", "LDMMaintenanceReactive"),
+                       ("InterfaceLDM4_Reactive", "LDMServiceReactive_RM", "LDMMaintenanceReactive")):
+    OBJECTS[_c] = {("ldm_service",): _svc, ("ldm_service", "ldm_maintenance"): _mnt,
+                   ("ldm_service", "ldm_maintenance", "data_containers"): "DictionaryDataBase"}
 # builtins that only read their argument
 PURE_BUILTINS = {"len", "list", "sorted", "set", "dict", "tuple", "bool", "iter", "min", "max", "any", "all", "sum", "print",
                  "str", "repr", "float", "int", "isinstance", "hash", "reversed", "enumerate"}
@@ -94,10 +139,34 @@ def load_classes():
                 if want is not None and want not in bases:
                     raise Fail(f"class {node.name} no longer derives from {want}")
                 out[node.name] = {f.name: f for f in node.body if isinstance(f, ast.FunctionDef)}
+    for c in CONFIGURATIONS:
+        if c in out:
+            raise Fail(f"the source now defines a class named {c}: rename the configuration in the translator")
+        out[c] = {}
     for c in LOCKS:
         if c not in out:
             raise Fail(f"class {c} not found")
+    check_state_lock(out)
     return out
+
+
+def check_state_lock(classes):
+    """LDMService.state_lock must be a property that returns self._lock (LOCK_CHAINS relies on it)"""
+    fn = classes["LDMService"].get("state_lock")
+    if fn is None:
+        raise Fail("LDMService.state_lock not found (renamed or removed)")
+    if [d.id for d in fn.decorator_list if isinstance(d, ast.Name)] != ["property"] or len(fn.decorator_list) != 1:
+        raise Fail("LDMService.state_lock is no longer a plain property")
+    body = [st for st in fn.body
+            if not (isinstance(st, ast.Expr) and isinstance(st.value, ast.Constant) and isinstance(st.value.value, str))]
+    me = fn.args.args[0].arg
+    ok = (len(body) == 1 and isinstance(body[0], ast.Return) and isinstance(body[0].value, ast.Attribute)
+          and isinstance(body[0].value.value, ast.Name) and body[0].value.value.id == me and body[0].value.attr == "_lock")
+    if not ok:
+        raise Fail("LDMService.state_lock no longer returns self._lock and nothing else")
+    for c in ("LDMServiceThreads", "LDMServiceReactive"):
+        if "state_lock" in classes[c]:
+            raise Fail(f"{c} overrides state_lock")
 
 
 def mro(cls):
@@ -177,6 +246,9 @@ class Summariser:
             for item in st.items:
                 l = self.lock_of(ctx, me, item.context_expr)
                 if l is None:
+                    ch = self.chain(me, item.context_expr)
+                    if ch is not None and any(c in LOCK_CHAINS for c in mro(ctx[0])):
+                        raise Fail(f"{where}: `with self.{'.'.join(ch)}` is not a lock the translator knows")
                     self.expr(ctx, me, item.context_expr, acts, depth, where)
                 else:
                     locks.append(l)
@@ -243,6 +315,11 @@ class Summariser:
     def lock_of(self, ctx, me, e):
         if isinstance(e, ast.Attribute) and isinstance(e.value, ast.Name) and e.value.id == me:
             return lock_id(ctx[0], e.attr)
+        ch = self.chain(me, e)
+        if ch is not None and len(ch) > 1:
+            for c in mro(ctx[0]):
+                if ch in LOCK_CHAINS.get(c, {}):
+                    return LOCK_CHAINS[c][ch]
         return None
 
     def tracked_attr(self, ctx, me, e):
@@ -345,7 +422,7 @@ class Summariser:
                     self.passes_container(ctx, me, a, where)
                     self.expr(ctx, me, a, acts, depth, where)
                 if target is not None:
-                    if depth >= 6:
+                    if depth >= 8:
                         raise Fail(f"{where}: call depth exceeded at {target}")
                     kind, dyn, start, name = target
                     acts.extend(self.method(dyn, name, depth + 1, start=start))
@@ -418,6 +495,21 @@ def main():
     lines.append("")
     names = []
     per_class = {}
+
+    def emit(cls, m):
+        acts = s.method(cls, m)
+        body = []
+        for a in acts:
+            if a[0] in ("Acq", "Rel") and a[1] not in lid:
+                raise Fail(f"{cls}.{m}: unknown lock {a[1]}")
+            if a[0] in ("Rd", "Wr") and a[1] not in fid:
+                raise Fail(f"{cls}.{m}: unknown field {a[1]}")
+            body.append("%s %d" % (a[0], lid[a[1]] if a[0] in ("Acq", "Rel") else fid[a[1]]))
+        nm = f"LM_{cls}_{m.strip('_')}"
+        names.append(nm)
+        per_class.setdefault(cls, []).append(nm)
+        lines.append(f"Definition {nm} : list action :=\n  [{'; '.join(body)}].")
+
     for cls in METHODS:
         # every method the dynamic class has (own and inherited), constructors excluded: a method added to the source
         # is summarised (and has to meet the obligations) without touching this translator
@@ -431,22 +523,25 @@ def main():
         if missing:
             raise Fail(f"{cls}: expected methods {missing} no longer exist")
         for m in meths:
-            acts = s.method(cls, m)
-            body = []
-            for a in acts:
-                body.append({"Acq": "Acq %d" % lid.get(a[1], -1) if a[0] == "Acq" else "",
-                             "Rel": "Rel %d" % lid.get(a[1], -1) if a[0] == "Rel" else "",
-                             "Rd": "Rd %d" % fid.get(a[1], -1) if a[0] == "Rd" else "",
-                             "Wr": "Wr %d" % fid.get(a[1], -1) if a[0] == "Wr" else ""}[a[0]])
-            nm = f"LM_{cls}_{m.strip('_')}"
-            names.append(nm)
-            per_class.setdefault(cls, []).append(nm)
-            lines.append(f"Definition {nm} : list action :=\n  [{'; '.join(body)}].")
+            emit(cls, m)
+    # the interface calls, per configuration: every method of the interface class (a method added to an interface is
+    # summarised and has to meet the obligations on ldm_if_summary)
+    if_classes = []
+    for cfg, base in IF_CONFIGS.items():
+        meths = [m for m in classes[base] if not (m.startswith("__") and m.endswith("__"))]
+        missing = [m for m in IF_METHODS[base] if m not in meths]
+        if missing:
+            raise Fail(f"{base}: expected methods {missing} no longer exist")
+        for m in meths:
+            emit(cfg, m)
+        if_classes.append(cfg)
     lines.append("")
     for cls, nms in per_class.items():
         lines.append(f"Definition ldm_methods_{cls} : list (list action) :=\n  [" + "; ".join(nms) + "].")
     lines.append("Definition ldm_summary : list (list action) :=\n  "
-                 + " ++ ".join(f"ldm_methods_{cls}" for cls in per_class) + ".")
+                 + " ++ ".join(f"ldm_methods_{cls}" for cls in per_class if cls not in if_classes) + ".")
+    lines.append("Definition ldm_if_summary : list (list action) :=\n  "
+                 + " ++ ".join(f"ldm_methods_{cls}" for cls in if_classes) + ".")
     lines.append("")
     content = "\n".join(lines) + "\n"
     path = os.path.join(VERIF, "coq", "theories", "Gen", "LdmLockSummary.v")
